@@ -118,6 +118,8 @@ func (o *Op) Describe() string {
 		for i := range o.Sub2 {
 			s += " during{" + o.Sub2[i].Describe() + "}"
 		}
+	case OpAddListener:
+		s += fmt.Sprintf("(world %d types %06b comps %v restricted=%v kind=%d)", o.Slot, o.V, o.Add, o.Vals, o.N)
 	case OpReset, OpGC, OpDumpLoad, OpTypeLimit, OpRegisterNew, OpLoadEnts:
 	case OpResAdd, OpResRemove:
 		s += fmt.Sprintf("(res %d)", o.C)
